@@ -44,6 +44,9 @@ import (
 //
 // Markers in template sources:
 //   @f @g @t @u   a filter / function / true-test / false-test call site (each gets its own name)
+//   @F @G @T @U   the same, written in a BRANCH-FREE expression form: by the language's semantics all upper-case
+//                 sites of a program are evaluated together (whenever one is, all are) — so whether such a site
+//                 is "reached" does not have to be learnt from the engine under test
 //   #name#        a reference to template `name` (include / extends / import / from)
 //   #./n=dir/n#   a RELATIVE reference: `./n` (or `../d/n`) is written, the loader is asked for `dir/n`
 //   $name$        a call of (or import of) macro `name`
@@ -478,6 +481,35 @@ var exprForms = []form{
 	{"itemfilter", "@g(m)['k']|@f"},
 	{"itembuiltin", "xs[@g(0)]|upper"},
 	{"itemlength", "([xs]|@f)[@g(0)]|length"},
+	// a filter applied to a base that itself CONTAINS another filter outside the chain (function argument,
+	// list / hash literal, parenthesised operand, ternary arm, filter argument, item-access container),
+	// one and two deep. Every site fails in turn and is unknown in turn: the outer filter fails / is unknown
+	// with the inner one healthy, and the other way round. All sites are Live (branch-free forms; the
+	// ternaries have a literal in the arm that is not taken).
+	{"fbfunc", "@G(x|@F)|@F"},
+	{"fblist", "[x|@F]|@F"},
+	{"fbparen", "(x|@F ~ '!')|@F"},
+	{"fbtern", "(@G(1) ? x|@F : 'n')|@F"},
+	{"fbternfalse", "(@G(0) ? 'n' : x|@F)|@F"},
+	{"fbhash", "{'k': x|@F}|@F"},
+	{"fbfilterarg", "x|@F(s|@F)|@F"},
+	{"fbgroup", "(x|@F)|@F"},
+	{"fbadd", "(x|@F + 1)|@F"},
+	{"fbitem", "[x|@F][0]|@F"},
+	{"fbhashitem", "{'k': x|@F}['k']|@F"},
+	{"fbbuiltininner", "@G(s|upper)|@F"},
+	{"fbbuiltinouter", "@G(s|@F)|upper"},
+	{"fbinnerchain", "@G(x|@F|@F)|@F"},
+	{"fbouterchain", "@G(x|@F)|@F|@F"},
+	{"fbdefault", "@G(x|@F)|default('d')|@F"},
+	{"fbtest", "@G(x|@F)|@F is @T"},
+	{"fbtwoargs", "@G(x|@F, s|@F)|@F"},
+	{"fbconcat", "@G(x|@F)|@F ~ [s|@F]|@F|length"},
+	{"fb2func", "@G(@G(x|@F)|@F)|@F"},
+	{"fb2list", "@G([x|@F]|@F)|@F"},
+	{"fb2paren", "[(x|@F ~ '!')|@F]|@F"},
+	{"fb2hashtern", "{'k': (@G(1) ? x|@F : 'n')|@F}|@F"},
+	{"fb2filterarg", "x|@F(@G(s|@F)|@F)|@F"},
 }
 
 var seqForms = []form{
@@ -502,6 +534,19 @@ var seqForms = []form{
 	{"seqdefchain", "@g([xs])[0]|default([])|reverse"},
 	{"seqdefmissing", "m[@g('nokey')]|default(xs|@f)"},
 	{"seqitemfilter", "@g([xs])[@g(0)]|@f"},
+	// the sequence's filter chain on a base that contains another filter outside the chain (see exprForms)
+	{"seqfbfunc", "@G(xs|@F)|@F"},
+	{"seqfblist", "[x|@F, 2]|@F"},
+	{"seqfbparen", "(xs|@F)|@F"},
+	{"seqfbtern", "(@G(1) ? xs|@F : [])|@F"},
+	{"seqfbhash", "{'k': x|@F}|@F"},
+	{"seqfbfilterarg", "xs|@F(s|@F)|@F"},
+	{"seqfbitem", "[xs|@F][0]|@F"},
+	{"seqfbbuiltininner", "@G(xs|reverse)|@F"},
+	{"seqfbbuiltinouter", "@G(xs|@F)|reverse"},
+	{"seqfbouterchain", "@G(xs|@F)|@F|reverse"},
+	{"seqfb2func", "@G(@G(xs|@F)|@F)|@F"},
+	{"seqfb2list", "@G([x|@F]|@F)|@F"},
 }
 
 var nameForms = []form{
@@ -511,6 +556,10 @@ var nameForms = []form{
 	{"nameconcat", "@g('pa') ~ 'rt'"},
 	{"namedefitem", "@g(['part'])[0]|default('zznone')"},
 	{"namedefindex", "['part'][@g(0)]|default('zznone')"},
+	{"namefbfunc", "@G(nm|@F)|@F"},
+	{"namefbparen", "(nm|@F ~ '')|@F"},
+	{"namefbitem", "[nm|@F][0]|@F"},
+	{"namefb2func", "@G(@G(nm|@F)|@F)|@F"},
 }
 
 var ctxVars = map[string]interface{}{
@@ -531,6 +580,8 @@ type site struct {
 	Ref     string // referenced template (the name the loader is asked for) / macro name
 	Written string // (template names) the name as written in the source: Ref, or a ./ ../ name that resolves to Ref
 	Ignore  bool   // (template names) written in a tag that carries `ignore missing`
+	Live    bool   // (callbacks) written as @F @G @T @U: stands in a branch-free expression — evaluated whenever any
+	// other Live site of the program is (no short-circuit, no untaken arm between them)
 }
 
 type program struct {
@@ -545,7 +596,7 @@ type program struct {
 	nested bool
 }
 
-var markerRE = regexp.MustCompile(`@[fgtu]|#[a-z0-9./]+(?:=[a-z0-9/]+)?#|\$[a-z0-9]+\$`)
+var markerRE = regexp.MustCompile(`@[fgtuFGTU]|#[a-z0-9./]+(?:=[a-z0-9/]+)?#|\$[a-z0-9]+\$`)
 
 func newProgram(p *position, f form) *program {
 	id := p.name + "/" + f.name
@@ -583,7 +634,11 @@ func buildProgram(id string, p *position, formName, top string, raw map[string]s
 			k++
 			switch mk[0] {
 			case '@':
-				pr.sites = append(pr.sites, site{Key: fmt.Sprintf("%c%d", mk[1], k), Kind: mk[1], Tpl: n})
+				kind, live := mk[1], false
+				if kind < 'a' {
+					kind, live = kind+('a'-'A'), true
+				}
+				pr.sites = append(pr.sites, site{Key: fmt.Sprintf("%c%d", kind, k), Kind: kind, Tpl: n, Live: live})
 			case '#':
 				// is the reference written in a tag that carries `ignore missing`?
 				ignore := false
@@ -640,8 +695,8 @@ var wrappers = []wrapper{
 }
 
 var nestedExprForms = map[string]bool{"filter": true, "func": true, "test": true, "filterarg": true, "ternfalse": true, "and": true, "hash": true, "seqfilterfirst": true,
-	"defitemon": true, "defindex": true, "defitemfilter": true}
-var nestedSeqForms = map[string]bool{"seqfilter": true, "seqfunc": true, "seqarray": true, "seqdefitem": true}
+	"defitemon": true, "defindex": true, "defitemfilter": true, "fbfunc": true, "fblist": true}
+var nestedSeqForms = map[string]bool{"seqfilter": true, "seqfunc": true, "seqarray": true, "seqdefitem": true, "seqfbfunc": true}
 
 var refRE = regexp.MustCompile(`#([a-z0-9./]+=)?([a-z0-9/]+)#`)
 
@@ -764,23 +819,37 @@ var skipCombos = map[string]bool{
 	"includewithvalue/range":     true,
 }
 
-func allPrograms() []*program {
+// forms of the filter-on-a-base-that-contains-a-filter family that only the thorough tier generates (the quick
+// tier keeps the twelve value / seven sequence / two name forms that span the kinds of base: call argument,
+// list, hash, parenthesised operand, ternary arm, filter argument, item access, built-in inner filter, longer
+// outer chain, two deep)
+var thoroughOnlyForms = map[string]bool{
+	"fbternfalse": true, "fbgroup": true, "fbadd": true, "fbhashitem": true, "fbbuiltinouter": true, "fbinnerchain": true,
+	"fbdefault": true, "fbtest": true, "fbtwoargs": true, "fbconcat": true, "fb2paren": true, "fb2filterarg": true,
+	"seqfbparen": true, "seqfbitem": true, "seqfbbuiltinouter": true, "seqfbouterchain": true, "seqfb2list": true,
+	"namefbitem": true, "namefb2func": true,
+}
+
+func allPrograms(thorough bool) []*program {
 	var ps []*program
 	for i := range positions {
 		p := &positions[i]
+		var forms []form
 		switch p.hole {
 		case 'E':
-			for _, f := range exprForms {
-				ps = append(ps, newProgram(p, f))
-			}
+			forms = exprForms
 		case 'S':
-			for _, f := range seqForms {
-				ps = append(ps, newProgram(p, f))
-			}
+			forms = seqForms
 		case 'N':
-			for _, f := range nameForms {
+			forms = nameForms
+		}
+		for _, f := range forms {
+			if thorough || !thoroughOnlyForms[f.name] {
 				ps = append(ps, newProgram(p, f))
 			}
+		}
+		switch p.hole {
+		case 'E', 'S', 'N':
 		default:
 			ps = append(ps, newProgram(p, form{"-", ""}))
 		}
@@ -1113,6 +1182,50 @@ func computeBaseline(pr *program) (b baseline) {
 	return b
 }
 
+// holeEvaluated: some Live site of the program was invoked in the fault-free run, i.e. the branch-free
+// expression that carries the Live sites is evaluated.
+func (pr *program) holeEvaluated(b *baseline) bool {
+	for _, st := range pr.sites {
+		if st.Live && b.counts[st.Key] > 0 {
+			return true
+		}
+	}
+	return false
+}
+
+// reached: the callback site is reached when the program is rendered — it was invoked in the fault-free run,
+// or it is a Live site of an expression that is evaluated (all Live sites of a program are evaluated together
+// by the language's semantics; that the engine under test did NOT invoke one of them does not make its name
+// "unreached": an unknown name there must still be reported).
+func (pr *program) reached(b *baseline, st site) bool {
+	return b.counts[st.Key] > 0 || (st.Live && pr.holeEvaluated(b))
+}
+
+// liveCase records whether every Live site of a program whose hole is evaluated was invoked in the fault-free
+// run. A Live site that the engine never invokes cannot be made to fail (no fault case exists for it — counted
+// as live_site_not_invoked, not a violation: the statement speaks about callbacks that ARE invoked); the name
+// faults for it are generated all the same.
+func liveCase(pr *program, b *baseline) *vlib.Outcome {
+	o := &vlib.Outcome{Counters: map[string]int64{}}
+	if !pr.holeEvaluated(b) {
+		o.Class = "live/hole-not-evaluated"
+		o.Counters["live_hole_not_evaluated"] = 1
+		return o
+	}
+	o.Nontrivial = true
+	o.Class = "live/all-invoked"
+	for _, st := range pr.sites {
+		if st.Live {
+			o.Counters["live_sites"]++
+			if b.counts[st.Key] == 0 {
+				o.Counters["live_site_not_invoked"]++
+				o.Class = "live/site-not-invoked"
+			}
+		}
+	}
+	return o
+}
+
 // ---------------------------------------------------------------------------------------------
 // the cases
 
@@ -1386,12 +1499,12 @@ func baseCase(pr *program, mode string) *vlib.Outcome {
 func main() {
 	twig.SetDebugWriter(io.Discard)
 	if os.Getenv("C17_DUMP") == "count" {
-		fmt.Printf("positions=%d exprForms=%d seqForms=%d nameForms=%d flat=%d nested(quick)=%d nested(thorough)=%d\n",
-			len(positions), len(exprForms), len(seqForms), len(nameForms), len(allPrograms()), len(nestedPrograms(false)), len(nestedPrograms(true)))
+		fmt.Printf("positions=%d exprForms=%d seqForms=%d nameForms=%d flat(quick)=%d flat(thorough)=%d nested(quick)=%d nested(thorough)=%d\n",
+			len(positions), len(exprForms), len(seqForms), len(nameForms), len(allPrograms(false)), len(allPrograms(true)), len(nestedPrograms(false)), len(nestedPrograms(true)))
 		return
 	}
 	if os.Getenv("C17_DUMP") != "" {
-		for _, pr := range append(allPrograms(), nestedPrograms(false)...) {
+		for _, pr := range append(allPrograms(true), nestedPrograms(false)...) {
 			b := computeBaseline(pr)
 			n := 0
 			for _, c := range b.counts {
@@ -1431,7 +1544,7 @@ func main() {
 }
 
 func runAll(t *vlib.T) {
-	progs := append(allPrograms(), nestedPrograms(t.Thorough())...)
+	progs := append(allPrograms(t.Thorough()), nestedPrograms(t.Thorough())...)
 	bases := make([]baseline, len(progs))
 	for i, pr := range progs {
 		bases[i] = computeBaseline(pr)
@@ -1467,6 +1580,20 @@ func runAll(t *vlib.T) {
 				continue
 			}
 			t.Case(pr.id+"|"+mode+"|base", func() *vlib.Outcome { return baseCase(pr, mode) })
+		}
+	}
+	// phase 0b: programs with Live sites — were all of them invoked in the fault-free run?
+	for i, pr := range progs {
+		if !bases[i].ok {
+			continue
+		}
+		hasLive := false
+		for _, st := range pr.sites {
+			hasLive = hasLive || st.Live
+		}
+		if hasLive {
+			pr, b := pr, &bases[i]
+			t.Case(pr.id+"|R|live", func() *vlib.Outcome { return liveCase(pr, b) })
 		}
 	}
 	// phase 1: single faults, mode by mode (plain mode first)
@@ -1525,7 +1652,7 @@ func runAll(t *vlib.T) {
 				pr, mode := pr, mode
 				switch st.Kind {
 				case 'f', 'g', 't', 'u':
-					if b.counts[st.Key] == 0 {
+					if !pr.reached(&b, st) {
 						continue // never reached
 					}
 					t.Case(pr.id+"|"+mode+"|name:"+st.Key, func() *vlib.Outcome {
@@ -1665,7 +1792,7 @@ func runAll(t *vlib.T) {
 					pr, mode, cache := pr, mode, cache
 					switch st.Kind {
 					case 'f', 'g', 't', 'u':
-						if b.counts[st.Key] == 0 {
+						if !pr.reached(&b, st) {
 							continue // never reached
 						}
 						t.Case(pfx+"name:"+st.Key, func() *vlib.Outcome {
@@ -1737,7 +1864,7 @@ func runAll(t *vlib.T) {
 				pr, mode := pr, mode
 				switch st.Kind {
 				case 'f', 'g', 't', 'u':
-					if b.counts[st.Key] == 0 || strings.HasPrefix(pr.raw[st.Tpl], "API-MACRO|") {
+					if !pr.reached(&b, st) || strings.HasPrefix(pr.raw[st.Tpl], "API-MACRO|") {
 						continue
 					}
 					desc := "template " + st.Tpl + " replaced by a version with an unknown " + siteKind(st.Key) + " name at site " + st.Key + " and back"
